@@ -46,12 +46,22 @@ func newDBGen(r *simkit.Run, nkeys int) *dbGen {
 }
 
 func (g *dbGen) block(h base.Height) *dbBlock {
+	n := 0
+	if g.manyKeys > 0 && g.r.Chance(1, 3) {
+		n = g.manyKeys
+	}
+
+	return g.blockN(h, n)
+}
+
+// blockN generates a block with about n generic states (n == 0: a small block).
+func (g *dbGen) blockN(h base.Height, n int) *dbBlock {
 	r := g.r
 	b := &dbBlock{h: h, sufH: base.NilHeight}
 
 	nstates := 1 + r.Choose(4)
-	if g.manyKeys > 0 && r.Chance(1, 3) {
-		nstates = g.manyKeys + r.Choose(40)
+	if n > 0 {
+		nstates = n + r.Choose(40)
 		r.Probe("block_with_many_states")
 	}
 
